@@ -1038,6 +1038,30 @@ func e2eTraffic(pfx string, monitor, inconsistency, counters bool) e2eOracle {
 				}
 			}
 		}
+		// a solicitation from the unspecified address (which the socket layer hands over with the interface's zone
+		// attached, as package ndp does) is answered by a scheduled multicast RA, never by an RA "to ::"
+		if counters && c.Unspec {
+			for _, ri := range run.Ifaces {
+				if !ri.Advertise || ri.UnicastOnly {
+					continue
+				}
+				multicast := 0
+				for _, e := range run.Events {
+					if e.Ev != "write" || e.Iface != ri.Name || e.TNS > run.Metrics2.Q.UnixNano() {
+						continue
+					}
+					if a, err := netip.ParseAddr(e.Dst); err == nil && a.WithZone("").IsUnspecified() {
+						return verifkit.Violf(pfx+"/answer-to-unspecified", "interface %q sent an RA to %q (a solicitation from :: must be answered to all nodes)\n%s", ri.Name, e.Dst, d())
+					}
+					if e.Dst == "ff02::1" {
+						multicast++
+					}
+				}
+				if multicast < 2 {
+					return verifkit.Violf(pfx+"/unspecified-source-not-served", "interface %q: %d multicast RAs before the second scrape (the initial one and the answer to the solicitation from :: were due)\n%s", ri.Name, multicast, d())
+				}
+			}
+		}
 		order := map[string][]string{
 			"corerad_monitor_messages_received_total": {"interface", "host", "message"},
 			"corerad_monitor_flag_managed":            {"interface", "router"}, "corerad_monitor_flag_other": {"interface", "router"},
